@@ -182,5 +182,6 @@ def scenarios(mlr):
             shell="%s put -q 'tee > stdout, $*' in.dkvp > /dev/full" % mlr)
         add("stdout-devfull-chain-%s" % stag, None, {"in.dkvp": wide}, key="stdout-devfull-wide",
             shell="%s cat then tac then put '$c = 1' in.dkvp > /dev/full" % mlr)
-    add("stdout-closed", None, {"in.dkvp": recs}, shell="%s cat in.dkvp >&-" % mlr)
+    # (no scenario "standard output closed" (`mlr ... >&-`): the Go runtime opens /dev/null on a standard descriptor it finds
+    # closed at start-up, before main runs, so the process cannot tell it from `> /dev/null` - there is no fault to report)
     return S
